@@ -747,11 +747,21 @@ class Class(CanContainImportsDocumentable):
         """
         Get the method resution order of this class. 
 
-        @note: The actual correct value is only set in post-processing, if L{mro()} is called
-            in the AST visitors, it will return the same as C{list(self.allbases(include_self))}.
+        @note: The actual value is only set in post-processing, if L{mro()} is called
+            in the AST visitors, it is computed over the bases that are resolved at that time
+            (and falls back to C{list(self.allbases(include_self))} if they cannot be linearised).
         """
         if self._mro is None:
-            return list(self.allbases(include_self))
+            # The linearisation is only stored in post-processing. Names looked up through
+            # a class while the modules are visited (an inherited nested class used as a base,
+            # an alias of an inherited member) must follow the same order nevertheless:
+            # use the C3 order of the bases resolved so far.
+            try:
+                early_mro: List['Class'] = mro.mro(self,
+                    lambda c: [b for b in c.baseobjects if b is not None])
+            except (ValueError, RecursionError):
+                return list(self.allbases(include_self))
+            return early_mro if include_self else early_mro[1:]
         _mro: Sequence[Union[str, Class]]
         if include_external is False:
             _mro = [o for o in self._mro if not isinstance(o, str)]
